@@ -42,8 +42,8 @@ MANIFEST = {
             "R-edits (real tree edits vs addKey/removeKey), raw routes with the real handlers.",
     "note": "C05-specific: handlers are opaque state transformers in the model (what a reached handler does is covered by C12-C17); "
             "that no code other than handlers mutates state on a refused request is carried by the rigs' before/after comparison "
-            "(describe_state and the deep fingerprint). Inst at the SIMULATION root after a deep edit is obtained by alternating "
-            "Inst_static_edit / Inst_dynamic_add along the path; only the one-component-level composite is stated as a single theorem. "
+            "(describe_state and the deep fingerprint). C05_deep_edit_keeps_inst lifts a local edit to any ancestor manager under an "
+            "executable path condition (pathOKB), discharged for the regenerated schema at one concrete path, not for all paths at once. "
             "The contract tables (expectedGuards, gate) are hand-written; the rigs validate Inst, the translation's input abstraction "
             "and the edit sites against the running code, they do not prove them.",
     "technique": "Lean 4 theorems over models of request dispatch, the schematic request tree, permission rules and tree edits; "
